@@ -13,8 +13,17 @@ SPEC = {
              "line / chunking, binary garbage, early close, TCP reset, stall past the response timeout, body shorter than Content-Length, "
              "JSON/HTML the extractors cannot parse, header values (0-20 characters) shorter than the configured substr(), whose one or two "
              "indices are generated: small or beyond the value, counted from the start or (negative) from the end; every history ends with a "
-             "well-behaved exchange. Guns: http (1-3 instances, keep-alive on/off), http/scenario with steps carrying each postprocessor "
-             "kind (var/jsonpath, var/xpath, var/header with and without substr, assert/response), grpc and grpc/scenario (any status code, "
+             "well-behaved exchange. Guns: http and connect (1-3 instances, keep-alive on/off; the connect gun half of the time with "
+             "connect-ssl against a TLS listener that serves the CONNECT tunnel) - one case in four against a target that goes away: its "
+             "listener stops listening before its k-th connection (k = 0: nothing listens from the start) and every later connection "
+             "is refused, while the port stays reserved; requests that never reached the target must be reported as samples with a net "
+             "error and no status. http/scenario with steps carrying each postprocessor "
+             "kind (var/jsonpath, var/xpath, var/header with and without substr, assert/response); three var/xpath steps in four map "
+             "1-2 generated XPath 1.0 expressions over a catalogue page (plain node-sets, node-sets whose predicates compare an attribute "
+             "with a number - alone, positional, negated, and/or-combined, nested in count() or on the parent -, string-function "
+             "predicates, scalar count()/boolean()/sum()/number()/concat() and top-level comparisons); a well-behaved target answers such "
+             "a step with a catalogue of numbers (the step must then succeed), a misbehaving one with items whose compared attribute "
+             "is 'N/A', empty, '1 200', '12,5', missing ...; grpc and grpc/scenario (any status code, "
              "stall past the timeout, 200k-item responses, assert/response), http2 (1-3 instances, keep-alive on/off, shared client on/off) "
              "and http2/scenario against an in-process TLS target that negotiates h2 and whose script fails individual TLS handshakes "
              "(alerts internal_error / unrecognized_name / protocol_version, or a dropped connection) and answers individual requests "
@@ -31,7 +40,13 @@ SPEC = {
                "TestHTTP2Gun/hs_close": 0.04, "TestHTTP2Gun/h2_good_after_tls_alert": 0.15, "TestHTTP2Gun/h2_shared_client": 0.15,
                "TestHTTP2Gun/h2_mis_kill_conn": 0.03, "TestHTTP2Gun/h2_mis_abort": 0.05, "TestHTTP2Gun/target_without_h2": 0.03,
                "TestHTTP2ScenarioGun/h2_good_after_tls_alert": 0.2, "TestHTTP2ScenarioGun/hs_internal_error": 0.08,
-               "TestHTTP2ScenarioGun/post_header_substr": 0.1},
+               "TestHTTP2ScenarioGun/post_header_substr": 0.1,
+               "TestHTTPGun/connect_gun": 0.2, "TestHTTPGun/connect_ssl": 0.08, "TestHTTPGun/target_goes_away": 0.15,
+               "TestHTTPGun/target_never_up": 0.03, "TestHTTPGun/refused_seen": 0.12, "TestHTTPGun/refused_after_served": 0.08,
+               "TestHTTPGun/connect_gun_refused": 0.04, "TestHTTPGun/connect_ssl_refused": 0.02,
+               "TestScenarioGun/xpath_expr_nodeset_numeric": 0.15, "TestScenarioGun/xpath_expr_scalar": 0.02,
+               "TestScenarioGun/xpath_expr_plain": 0.04, "TestScenarioGun/xpath_nodeset_numeric_on_non_numeric_page": 0.03,
+               "TestScenarioGun/xpath_nodeset_numeric_on_numeric_page": 0.02},
     "manifest": {
         "technique": "fault-injection property testing (rapid): generated misbehaving response histories against the real guns and engine",
         "text": ("Whatever the generated history, Engine.Run must return nil (no 'shoot panic', no component error), every attempted "
@@ -42,7 +57,11 @@ SPEC = {
                  "instance shoots with keep-alives off, so the k-th TLS handshake seen by the target is the k-th attempted step and must be "
                  "the k-th sample. With a shared client and several instances connection-level faults are not generated (a killed "
                  "connection would take other instances' requests along). Scenario invocations are told apart at the target by counting first-step requests with one "
-                 "instance and keep-alives off (Go's transport then never retries silently)."),
+                 "instance and keep-alives off (Go's transport then never retries silently). A request is counted as refused when the "
+                 "target that went away has no record of it (a connection that sat in the backlog when the listener closed is reset, not "
+                 "refused - same expectation: a failure sample). connect-ssl is exercised with a plain inner request (gun ssl off). "
+                 "A crash of the worker process (a panic in a goroutine of net/http's transport cannot be recovered by the engine) is "
+                 "attributed by the driver to the case being executed."),
     },
     "assumptions": ["a step whose response an extractor cannot digest may count as failed or not; only survival, sample accounting and the good exchanges are asserted"],
 }
